@@ -2,10 +2,12 @@ package rules
 
 import (
 	"go/token"
+	"go/types"
 	"strings"
 
 	"golang.org/x/tools/go/ssa"
 
+	"verif/sa/boolfn"
 	"verif/sa/core"
 )
 
@@ -34,7 +36,7 @@ func runC18(c *Ctx) {
 	c.L.Floor("C18.shutdown.loop", 4)
 	c.L.Floor("C18.shutdown.status", 2)
 	c.L.Floor("C18.shutdown.panic-isolation", 3)
-	c.L.Floor("C18.refresh.loop", 5)
+	c.L.Floor("C18.refresh.loop", 6)
 	c.L.Floor("C18.refresh.context", 2)
 	c.L.Floor("C18.refresh.shutdown", 3)
 
@@ -48,6 +50,7 @@ func runC18(c *Ctx) {
 	}
 	c18Registry(c)
 	c18Refresh(c)
+	c18SignalSet(c)
 }
 
 // c18Registry: the list of registered services is owned by the handler: it is
@@ -613,6 +616,30 @@ func c18Refresh(c *Ctx) {
 			c.check(okS && mnS >= 1, "C18.refresh.loop", loop, "every refresh is preceded, in its iteration, by the select on w.done", refreshCall,
 				"a path from the loop head to the refresh around the select (a fast path for a zero delay) starts refreshes after Shutdown has returned")
 		}
+		// "consults the schedule for the next delay after each refresh": every
+		// UntilNext inside the loop, and the clock reading it is given, comes
+		// after the refresh of its iteration on every path from the select
+		if refreshCall != nil {
+			core.EachInstr(loop, func(in ssa.Instruction) {
+				call, ok := in.(*ssa.Call)
+				if !ok || !isUntilNext(call) || !body[call.Block()] {
+					return
+				}
+				okAfter := true
+				for _, at := range []ssa.Instruction{call, call.Call.Args[0].(*ssa.Call)} {
+					if !body[at.Block()] {
+						okAfter = false // a clock reading taken outside the loop
+						continue
+					}
+					mn, _, ok := core.CountOnPaths(loop, sel, at, isRefresh)
+					if !ok || mn < 1 {
+						okAfter = false
+					}
+				}
+				c.check(okAfter, "C18.refresh.loop", loop, "the next delay is computed, from a clock reading taken, after the refresh of the iteration", call,
+					"a delay computed before a refresh that takes time is stale by the duration of that refresh")
+			})
+		}
 		for _, p := range head.Preds {
 			if !body[p] {
 				continue
@@ -806,4 +833,117 @@ func factNonNil(facts []core.Fact, v ssa.Value) bool {
 		}
 	}
 	return false
+}
+
+// c18SignalSet decides which signals are shutdown signals: osutil's predicate
+// IsShutdownSignal is evaluated exactly on an os.Signal whose dynamic type is
+// the platform's signal type and whose number is a symbolic integer, and must
+// hold exactly for the signals the package subscribes to in
+// NotifyShutdownSignal (its sibling: the set the handler is notified of is the
+// set it shuts down on).  Skipped, with a note, where the subscribed signals
+// are not constants (Windows: os.Interrupt is a variable).
+func c18SignalSet(c *Ctx) {
+	const rule = "C18.signal.set-exact"
+	pred := c.fn("osutil", "IsShutdownSignal")
+	notify := c.fn("osutil", "notifyShutdownSignal")
+	if pred == nil || notify == nil || len(pred.Params) != 1 {
+		return
+	}
+	// the subscribed signals: constants of an integer type converted to the
+	// interface in the call of Notify
+	var set []int64
+	var sigType types.Type
+	okConst := true
+	n := 0
+	core.EachInstr(notify, func(in ssa.Instruction) {
+		mi, ok := in.(*ssa.MakeInterface)
+		if !ok {
+			return
+		}
+		n++
+		k, isK := mi.X.(*ssa.Const)
+		if !isK {
+			okConst = false
+			return
+		}
+		v, isInt := core.ConstInt(k)
+		if !isInt {
+			okConst = false
+			return
+		}
+		set = append(set, v)
+		sigType = k.Type()
+	})
+	if !okConst || n == 0 || sigType == nil {
+		c.L.Notef("the signals subscribed to in notifyShutdownSignal are not all constants: C18.signal.set-exact not evaluated in this configuration")
+		return
+	}
+	m := boolfn.New()
+	ev := &boolfn.Eval{M: m, Entered: map[string]bool{}, ForcePath: true, Steps: 200000}
+	ev.InScope = core.InModule
+	in := ev.IntInput(0, 64, true)
+	ev.OnTypeAssert = func(v *ssa.TypeAssert, x boolfn.Val) (boolfn.Val, bool) {
+		if x.Kind != boolfn.KBits {
+			return boolfn.Val{}, false
+		}
+		same := types.Identical(v.AssertedType, sigType)
+		if types.IsInterface(v.AssertedType) {
+			return boolfn.Val{}, false
+		}
+		val := x
+		if !same {
+			val = ev.Const(0, 64, true)
+		}
+		yes := 0
+		if same {
+			yes = 1
+		}
+		if v.CommaOk {
+			return boolfn.Val{Kind: boolfn.KTuple, Tuple: []boolfn.Val{val, boolfn.BoolVal(yes)}}, true
+		}
+		if !same {
+			return boolfn.Val{}, false // would panic
+		}
+		return val, true
+	}
+	rs, err := ev.Call(pred, []boolfn.Val{in})
+	if err != nil || len(rs) != 1 || rs[0].Kind != boolfn.KBits || len(rs[0].Bits) != 1 {
+		c.L.Notef("IsShutdownSignal is outside the exact evaluator's grammar (%v): C18.signal.set-exact not evaluated", err)
+		return
+	}
+	want := 0
+	for _, v := range set {
+		eq := 1
+		kb := ev.Const(v, 64, true).Bits
+		for b := range kb {
+			eq = m.And(eq, m.Not(m.Xor(in.Bits[b], kb[b])))
+		}
+		want = m.Or(want, eq)
+	}
+	c.L.Floor(rule, 1)
+	what := sprintf("IsShutdownSignal(sig) <=> sig is one of the %d signals subscribed to in NotifyShutdownSignal %v", len(set), set)
+	if d := m.Xor(rs[0].Bits[0], want); d != 0 {
+		// a small signal number as witness where there is one
+		small := d
+		for b := 7; b < 64; b++ {
+			small = m.And(small, m.Not(in.Bits[b]))
+		}
+		if small != 0 {
+			d = small
+		}
+		w := m.Witness(d)
+		var v int64
+		for b := 0; b < 64; b++ {
+			if w[63-b] { // IntInput numbers its variables from the high bit
+				v |= 1 << uint(b)
+			}
+		}
+		kind := "is a shutdown signal though the handler is never subscribed to it"
+		if m.And(d, want) != 0 {
+			kind = "is subscribed to but is not a shutdown signal"
+		}
+		c.check(false, rule, pred, what, nil, sprintf("signal number %d %s", v, kind))
+		return
+	}
+	c.check(true, rule, pred, what, nil, "equal as Boolean functions of the 64 bits of the signal number (dynamic type: the platform's signal type)")
 }
